@@ -208,6 +208,6 @@ theorem gen_get_tag_indices (s t : Char) (e : List Char) :
       intro h
       omega
 
-theorem translatedParser_covers : translatedParser = ["get_tag_indices"] := by decide
+theorem translatedParser_covers : translatedParser = ["get_tag_indices", "compile_regex"] := by decide
 
 end Vakt.GenEquiv
